@@ -107,6 +107,18 @@ def gen_cases(seed, tier):
                     v = "(0" + "".join(" " + rec_value(rng, versions[w]) for _ in range(rng.choice([0, 1, 2, 3]))) + ")"
                 sfx = rng.choice(["-", "00", "0102ff", "02080803"])
                 out.append({"H": H, "w": w, "r": r, "wrap": wrap, "val": v, "sfx": sfx, "illegal": illegal})
+            if w == r and not illegal:
+                # same definition on both sides: deduplicated strings around the record, repeating each other and the
+                # names the record's header carries - the data that follows the record must not be disturbed
+                import re
+                names = [bytes.fromhex(x).decode() for x in re.findall(r"\((?:rem|tra) ([0-9a-f]+)", H)]
+                pool = (names or ["z"]) + ["q", "hello"]
+                a, c2 = rng.choice(pool), rng.choice(pool)
+                hx = lambda t: "b" + (t.encode().hex() or "-")
+                last = rng.choice([a, c2, c2])       # a repeat of a string first seen before, or after, the record
+                v = f"(0 {hx(a)} {rec_value(rng, versions[w])} {hx(c2)} {hx(last)})"
+                out.append({"H": H, "w": w, "r": r, "wrap": "(tup dstr (named 0) dstr dstr)", "val": v, "sfx": "-",
+                            "illegal": illegal})
     return out
 
 
@@ -199,14 +211,15 @@ def check(rep, tier, seed):
     # static route: one history compiled version by version with the real derive macro (H1v0..H1v4)
     from .. import catalogue as K
     env = K.load()
-    ids = [K.index_of(env, f"H1v{i}") for i in range(5)]
     rng = C.rng_for(seed, "C03s")
     sc = []
     per = 8 if tier == "quick" else 200
-    for w in range(5):
-        for r in range(5):
-            for v in K.gen_values(rng, env, ids[w], per):
-                sc.append({"cmd": "sx", "w": ids[w], "r": ids[r], "val": v, "sfx": rng.choice(["-", "00", "0102ff"])})
+    for fam in ("H1v", "H2v"):          # H2: added fields declared in the middle of the struct
+        ids = [K.index_of(env, f"{fam}{i}") for i in range(5)]
+        for w in range(5):
+            for r in range(5):
+                for v in K.gen_values(rng, env, ids[w], per):
+                    sc.append({"cmd": "sx", "w": ids[w], "r": ids[r], "val": v, "sfx": rng.choice(["-", "00", "0102ff"])})
     simpl, smod, hl = K.run_static(harness, model, env, sc, wd, "st")
     sdis = [(l, a, b) for l, a, b in zip(hl, simpl, smod) if a != b]
     C.proof_coverage(rep, ob, "C03")
